@@ -57,6 +57,16 @@ theorem loaded_topics_are_the_valid_names (d : Doc) (t : String) :
     t ∈ (loadRaw d).map (·.name) ↔ ∃ e ∈ d, e.name = t ∧ validName t = true := by
   simpa [loadRaw] using mem_names_foldl d [] t
 
+/-- A pause is never undone by what follows in the file: once a topic is paused after a prefix of the document,
+it is paused after the whole document (a later entry of the same name with `paused:false` does NOT unpause). -/
+theorem pause_is_sticky (d1 d2 : Doc) (t : String) (h : ∃ x ∈ loadRaw d1, x.name = t ∧ x.paused = true) :
+    ∃ x ∈ loadRaw (d1 ++ d2), x.name = t ∧ x.paused = true := by
+  have := foldl_keeps_pause d2 t (loadRaw d1) h
+  simpa [loadRaw, List.foldl_append, PausedTopic] using this
+
+example : (∃ x ∈ loadRaw [⟨"t", true, []⟩], x.name = "t" ∧ x.paused = true) ∧
+    loadRaw ([⟨"t", true, []⟩] ++ [⟨"t", false, []⟩]) = [⟨"t", true, false, false, []⟩] := by decide
+
 /-- On a document with unique valid names the real loop is the idealised loader (`#ephemeral` names in the file
 ARE created, as ephemeral objects). -/
 theorem load_good_doc (d : Doc) (h : DocGood d) : loadRaw d = d.map loadTopicE := loadRaw_good d h
